@@ -12,6 +12,7 @@
 package main
 
 import (
+	"encoding/pem"
 	"context"
 	"crypto/x509"
 	"errors"
@@ -52,7 +53,18 @@ type storeT struct {
 	Certs      []string // root inter leaf other
 	Exists     bool
 	LinkFile   bool   // one of the store's entries is a symbolic link to a certificate file of another store: the store cannot be loaded
+	Bundle     bool   // the certificates are kept in one PEM file, in the order of Certs
+	Junk       string // non-empty: the store also holds this entry, which is no certificate file: the store cannot be loaded
 	LinkTo     string // non-empty: the store directory is a symbolic link to this other store's directory ("type/name")
+}
+
+func contains(l []string, x string) bool {
+	for _, y := range l {
+		if y == x {
+			return true
+		}
+	}
+	return false
 }
 
 func main() {
@@ -112,11 +124,37 @@ func main() {
 				stores = append(stores, st)
 			}
 		}
-		for _, st := range stores {
+		for k := range stores {
+			st := &stores[k]
 			d := filepath.Join(base, "truststore", "x509", st.Type, st.Name)
 			os.MkdirAll(d, 0o755)
-			for _, c := range st.Certs {
-				os.WriteFile(filepath.Join(d, c+".crt"), certs[c].Raw, 0o644)
+			if len(st.Certs) > 1 && rng.Intn(4) == 0 {
+				// all certificates of the store in ONE file, in any order (a leaf anywhere in it makes the store unloadable)
+				if !contains(st.Certs, "leaf") && rng.Intn(2) == 0 {
+					st.Certs = append(st.Certs, "leaf")
+				}
+				rng.Shuffle(len(st.Certs), func(i, j int) { st.Certs[i], st.Certs[j] = st.Certs[j], st.Certs[i] })
+				var pemAll []byte
+				for _, c := range st.Certs {
+					pemAll = append(pemAll, pem.EncodeToMemory(&pem.Block{Type: "CERTIFICATE", Bytes: certs[c].Raw})...)
+				}
+				os.WriteFile(filepath.Join(d, "bundle.pem"), pemAll, 0o644)
+				st.Bundle = true
+				r.Event("stores-kept-as-one-bundle-file")
+			} else {
+				for _, c := range st.Certs {
+					os.WriteFile(filepath.Join(d, c+".crt"), certs[c].Raw, 0o644)
+				}
+			}
+			// an entry that is not a certificate file (whatever it is called): the store cannot be loaded
+			if rng.Intn(8) == 0 {
+				st.Junk = []string{".DS_Store", ".git/", "README.txt", "old/", "..data/", ".root.crt.swp"}[rng.Intn(6)]
+				if strings.HasSuffix(st.Junk, "/") {
+					os.MkdirAll(filepath.Join(d, st.Junk), 0o755)
+				} else {
+					os.WriteFile(filepath.Join(d, st.Junk), []byte("\x00\x00\x00\x01Bud1 not a certificate"), 0o644)
+				}
+				r.Event("stores-with-an-entry-that-is-no-certificate")
 			}
 		}
 		// a store entry that is a symbolic link to the signer's root kept elsewhere (outside the trust store, or in a store of
@@ -166,7 +204,7 @@ func main() {
 			return nil
 		}
 		loadable := func(st *storeT) bool {
-			if st == nil || st.LinkFile || len(st.Certs) == 0 || st.LinkTo != "" {
+			if st == nil || st.LinkFile || len(st.Certs) == 0 || st.LinkTo != "" || st.Junk != "" {
 				return false
 			}
 			for _, c := range st.Certs {
@@ -221,7 +259,27 @@ func main() {
 			{Name: "global-statement", SignatureVerification: sts[0].SignatureVerification, TrustStores: sts[0].TrustStores, TrustedIdentities: []string{"*"}, GlobalPolicy: true},
 			{Name: "named-statement", SignatureVerification: sts[len(sts)-1].SignatureVerification, TrustStores: sts[len(sts)-1].TrustStores, TrustedIdentities: []string{"*"}}}}
 		pm := lib.ScriptedManager{P: &lib.ScriptedPlugin{Caps: []pf.Capability{pf.CapabilityTrustedIdentityVerifier, pf.CapabilityRevocationCheckVerifier}}}
-		v, err := verifier.NewVerifierWithOptions(lts, verifier.VerifierOptions{OCITrustPolicy: doc, BlobTrustPolicy: bdoc, PluginManager: pm, RevocationCodeSigningValidator: lib.OKRev{}, RevocationTimestampingValidator: lib.OKRev{}})
+		vopts := verifier.VerifierOptions{OCITrustPolicy: doc, BlobTrustPolicy: bdoc, PluginManager: pm, RevocationCodeSigningValidator: lib.OKRev{}, RevocationTimestampingValidator: lib.OKRev{}}
+		var v *verifier.Verifier
+		var err error
+		if ci%4 == 1 {
+			// the deprecated constructor is given the document as its argument; an options value that (still) carries
+			// another document - one statement listing every store there is - does not change whose statements apply
+			var every []string
+			for _, st := range stores {
+				every = append(every, st.Type+":"+st.Name)
+			}
+			if len(every) == 0 {
+				every = []string{"ca:s0"}
+			}
+			vopts.OCITrustPolicy = &trustpolicy.OCIDocument{Version: "1.0", TrustPolicies: []trustpolicy.OCITrustPolicy{{Name: "everything", SignatureVerification: trustpolicy.SignatureVerification{VerificationLevel: "audit"},
+				TrustStores: every, TrustedIdentities: []string{"*"}, RegistryScopes: []string{"*"}}}}
+			vopts.PluginManager = nil
+			v, err = verifier.NewWithOptions(doc, lts, pm, vopts)
+			r.Event("verifiers-from-the-deprecated-constructor")
+		} else {
+			v, err = verifier.NewVerifierWithOptions(lts, vopts)
+		}
 		if err != nil {
 			panic(err)
 		}
